@@ -46,6 +46,82 @@ type Search struct {
 
 	classes map[string]bool // access paths that are condition classes in Fn
 	prog    *Prog
+	relCmp  map[string]bool   // comparison keys tested more than once in Fn
+	relPhi  map[*ssa.Phi]bool // phis whose value can decide a later branch
+}
+
+// computeRelevance restricts the facts a path carries to those that can decide
+// a later branch: comparisons whose canonical form occurs at least twice among
+// branch conditions / boolean phi inputs, and phis that (transitively) feed a
+// branch condition. This keeps the state space small.
+func (s *Search) computeRelevance() {
+	s.relCmp = map[string]bool{}
+	s.relPhi = map[*ssa.Phi]bool{}
+	count := map[string]int{}
+	var noteCond func(v ssa.Value, d int)
+	noteCond = func(v ssa.Value, d int) {
+		if d > 8 {
+			return
+		}
+		switch x := v.(type) {
+		case *ssa.UnOp:
+			if x.Op == token.NOT {
+				noteCond(x.X, d+1)
+			}
+		case *ssa.BinOp:
+			if k, _ := cmpKey(x); k != "" {
+				count[k]++
+			}
+			if p, ok := x.X.(*ssa.Phi); ok {
+				if _, isC := x.Y.(*ssa.Const); isC {
+					s.markPhi(p, 0)
+				}
+			}
+			if p, ok := x.Y.(*ssa.Phi); ok {
+				if _, isC := x.X.(*ssa.Const); isC {
+					s.markPhi(p, 0)
+				}
+			}
+		case *ssa.Phi:
+			s.markPhi(x, 0)
+		}
+	}
+	for _, b := range s.Fn.Blocks {
+		for _, in := range b.Instrs {
+			switch x := in.(type) {
+			case *ssa.If:
+				noteCond(x.Cond, 0)
+			}
+		}
+	}
+	// boolean phi inputs that are comparisons count as occurrences too
+	for p := range s.relPhi {
+		for _, e := range p.Edges {
+			noteCond(e, 1)
+		}
+	}
+	for k, n := range count {
+		if n >= 2 {
+			s.relCmp[k] = true
+		}
+	}
+}
+
+func (s *Search) markPhi(p *ssa.Phi, d int) {
+	if s.relPhi[p] || d > 8 {
+		return
+	}
+	s.relPhi[p] = true
+	for _, e := range p.Edges {
+		if q, ok := e.(*ssa.Phi); ok {
+			s.markPhi(q, d+1)
+		}
+		if u, ok := e.(*ssa.UnOp); ok && u.Op == token.NOT {
+			if q, ok := u.X.(*ssa.Phi); ok {
+				s.markPhi(q, d+1)
+			}
+		}
+	}
 }
 
 type state struct {
@@ -341,9 +417,11 @@ func (s *Search) learn(v ssa.Value, val bool, facts map[string]string) {
 			facts[k] = fmt.Sprint(val)
 		}
 	case *ssa.Phi:
-		facts[phiKey(x)] = fmt.Sprint(val)
+		if s.relPhi[x] {
+			facts[phiKey(x)] = fmt.Sprint(val)
+		}
 	case *ssa.BinOp:
-		if k, pos := cmpKey(x); k != "" {
+		if k, pos := cmpKey(x); k != "" && s.relCmp[k] {
 			facts[k] = fmt.Sprint(val == pos)
 		}
 		if x.Op == token.EQL || x.Op == token.NEQ {
@@ -411,6 +489,18 @@ func (s *Search) enter(from, to *ssa.BasicBlock, facts map[string]string) map[st
 		}
 		inc := p.Edges[pi]
 		k := phiKey(p)
+		if !s.relPhi[p] {
+			continue
+		}
+		if _, isConst := inc.(*ssa.Const); !isConst {
+			if _, isPhi := inc.(*ssa.Phi); !isPhi {
+				// a boolean input whose value is known on this path (e.g. a comparison just branched on)
+				if bv, known := s.eval(inc, facts); known {
+					set(k, fmt.Sprint(bv), false)
+					continue
+				}
+			}
+		}
 		switch y := inc.(type) {
 		case *ssa.Const:
 			if y.Value == nil || y.Value.Kind() == constant.Bool || y.Value.Kind() == constant.Int {
@@ -435,6 +525,9 @@ func (s *Search) enter(from, to *ssa.BasicBlock, facts map[string]string) map[st
 func (s *Search) Run(start ssa.Instruction) (bool, []string) {
 	if s.classes == nil && !s.NoFacts {
 		s.classes = condClasses(s.Fn)
+	}
+	if s.relCmp == nil {
+		s.computeRelevance()
 	}
 	var st *state
 	init := map[string]string{}
